@@ -8,7 +8,8 @@ git apply "$patch" || { echo "patch does not apply"; exit 2; }
 rm -rf /verif/work/evidence.saved; cp -r /verif/evidence /verif/work/evidence.saved
 cd /verif
 n=0
-for p in $(python3 -c "import json; print(' '.join(c['property_id'] for c in json.load(open('MANIFEST.json'))['checks']))"); do
+# BENIGN_PROPS="C01 C06 .." restricts the run to the named checks (after a change that touches only those)
+for p in ${BENIGN_PROPS:-$(python3 -c "import json; print(' '.join(c['property_id'] for c in json.load(open('MANIFEST.json'))['checks']))")}; do
   out=$(./check $p 2>&1 | grep -E "VIOLATION" | cut -c1-300)
   if [ -n "$out" ]; then echo "[$p] $out"; n=$((n+1)); fi
 done
